@@ -670,6 +670,8 @@ func (w *WAL) Sync() error {
 func (w *WAL) Flush() error {
 	w.mu.Lock()
 	defer w.mu.Unlock()
+	verifhook.Point("wal.locked.enter")
+	defer verifhook.Point("wal.locked.leave")
 
 	if atomic.LoadInt32(&w.status) == WALStatusClosed {
 		return ErrWALClosed
